@@ -67,6 +67,8 @@ def behOf (kind : String) (x1 x2 : Str) : Option Beh :=
   | "hrefused" => some .hconn
   | "hrejsuf" => some (.hrejsuf x1 x2)
   | "herrsuf" => some (.herrsuf x1)
+  | "hxlat" => some (.hxlat x1 x2)
+  | "hsub" => some (.hsub x1 x2)
   | k => if k.startsWith "hs" then (k.drop 2).toString.toNat?.map .hstatus else none
 
 def parseOps (s : String) : List Str :=
@@ -170,7 +172,8 @@ def siteExpected (m : Manager Content) (u p : Str) (x : String) (impl : String) 
     let wN := wireOf "NewProxy" .newProxy m.newProxyPlugins false rN.2
     let rP := m.ping ⟨[], user⟩
     let wP := wireOf "Ping" .ping m.pingPlugins false rP.2
-    let rW := m.newWorkConn ⟨Str.ofString "r1", user⟩
+    -- the scenario's work connection carries timestamp 0 and util.GetAuthKey("", 0) = md5("0")
+    let rW := m.newWorkConn ⟨Str.ofString "cfcd208495d565ef66e7dff9f98764da", user⟩
     let wW := wireOf "NewWorkConn" .newWorkConn m.newWorkConnPlugins false rW.2
     match peerSeesOk rN.1, peerSeesOk rP.1, peerSeesOk rW.1 with
     | some nOk, some pOk, some wOk =>
@@ -304,6 +307,12 @@ def sessExpected (m : Manager Content) (u : Str) (script : List SessTok) (impl :
   the plugin server received and whether the peer saw the operation go on are judged by
   `C15.siteHoldsOn` (Login / NewUserConn: the address member is not compared).
 
+  Credentials: Pings and work connections carry credentials (privilege key + timestamp as one string); an `A` step
+  configures the HeartBeats / NewWorkConns auth scopes and names the credentials the verifier accepts.  The verdicts
+  of VerifyPing / VerifyNewWorkConn are computed by `PluginSite.stepReq` from the content the chain RETURNED
+  (`C15.ping_acts_on_rewritten`, `C15.workconn_acts_on_rewritten`), not taken over: a Pong / StartWorkConn that
+  follows the original credentials instead fails the step.
+
   The heartbeat: a `P` result carries whether the session's `lastPing` moved (`+` / `=`, read through
   `Service.VerifAuthSessions`), judged by `C15.pingHoldsOn` (a Ping counts only if the chain passed).  A
   history may set the heartbeat timeout (`Z:<s>`) and let real time pass (`W:<ds>`, on an absolute schedule
@@ -316,15 +325,63 @@ def sessExpected (m : Manager Content) (u : Str) (script : List SessTok) (impl :
 inductive HRid
   | e | f (r : Str) | s (i : Nat)
 
+/-- an occurrence of a `J` step: a user connection (+ its work connection, carrying `cred`) for the proxy of step
+    `k`, a Ping on slot `i`, a NewProxy on slot `i` -/
+inductive JItem
+  | c (k : Option Nat) (cred : Str) | p (i : Nat) (cred : Str) | n (i : Nat) (name : Str)
+
+/-- the plugin holding a request of item `j` answers | a plugin changes its mind -/
+inductive JAct
+  | r (j : Nat) | f (id : Nat) (b : Beh)
+
 inductive HistTok
   | L (rid : HRid) (user : Str) | X (i : Nat) | F (id : Nat) (b : Beh)
-  | N (i : Nat) (name : Str) | P (i : Nat) (key : Str) | C (k : Nat)
-  | Z (sec : Nat) | A | W (ds : Nat)
+  | N (i : Nat) (name : Str) | P (i : Nat) (key : Str) | C (k : Option Nat) (cred : Str)
+  | Z (sec : Nat) | A (h w : Bool) (valid : List Str) | W (ds : Nat)
+  | J (items : List JItem) (acts : List JAct)
 
 /-- the period of the heartbeat worker (`wait.Until(…, time.Second, …)`, `C15.code_ping_store_gated`) and the
     tolerance of the harness' schedule, in deciseconds -/
 def hbPeriod : Nat := 10
 def hbSlack : Nat := 5
+
+def parseJItem (t : String) : Option JItem :=
+  let rest := ((t.drop 1).toString).splitOn "~"
+  if t.startsWith "c" then
+    match rest with
+    | [k, c, _] => do
+      let k ← (if k = "^" then some none else k.toNat?.map some)
+      let c ← unhx c
+      pure (.c k c)
+    | _ => none
+  else if t.startsWith "p" then
+    match rest with
+    | [i, c] => do
+      let i ← i.toNat?
+      let c ← unhx c
+      pure (.p i c)
+    | _ => none
+  else if t.startsWith "n" then
+    match rest with
+    | [i, n] => do
+      let i ← i.toNat?
+      let n ← unhx n
+      pure (.n i n)
+    | _ => none
+  else none
+
+def parseJAct (t : String) : Option JAct :=
+  if t.startsWith "r" then ((t.drop 1).toString.toNat?).map .r
+  else if t.startsWith "f" then
+    match ((t.drop 1).toString).splitOn "~" with
+    | [id, kind, x1, x2] => do
+      let id ← id.toNat?
+      let x1 ← unhx x1
+      let x2 ← unhx x2
+      let b ← behOf kind x1 x2
+      pure (.f id b)
+    | _ => none
+  else none
 
 def parseHistTok (t : String) : Option HistTok :=
   match t.splitOn ":" with
@@ -352,9 +409,22 @@ def parseHistTok (t : String) : Option HistTok :=
     let i ← i.toNat?
     let k ← unhx k
     pure (.P i k)
-  | ["C", k] => k.toNat?.map .C
+  | ["C", k] => k.toNat?.map (fun k => .C (some k) [])
+  | ["C", k, c] => do
+    let k ← (if k = "^" then some none else k.toNat?.map some)
+    let c ← unhx c
+    pure (.C k c)
   | ["Z", n] => n.toNat?.map .Z
-  | ["A"] => some .A
+  | ["A", sc, v] => do
+    let valid ← (if v = "" then some [] else (v.splitOn "/").mapM unhx)
+    if sc = "h" then pure (.A true false valid)
+    else if sc = "w" then pure (.A false true valid)
+    else if sc = "hw" then pure (.A true true valid)
+    else none
+  | ["J", items, acts] => do
+    let items ← (items.splitOn "/").mapM parseJItem
+    let acts ← (if acts = "-" || acts = "" then some [] else (acts.splitOn "/").mapM parseJAct)
+    pure (.J items acts)
   | ["W", d] => d.toNat?.map .W
   | _ => none
 
@@ -376,6 +446,7 @@ structure HSlot where
 
 structure HAcc where
   srv : PluginSite.Srv := {}
+  auth : PluginSite.Auth := {}      -- the credential check of this server (`A` step)
   mgr : Manager Content
   slots : List HSlot := []
   byStep : List (Option (Nat × Str)) := []     -- per step: an N step answered ok ↦ (slot, name)
@@ -410,14 +481,28 @@ def evHolds (e : PluginSite.Ev Content) (name : String) (blank : Bool) (obsW : S
 def evWire (e : PluginSite.Ev Content) (name : String) (blank : Bool) : List String :=
   wireOf name e.op e.chain blank e.cons
 
-def HAcc.push (a : HAcc) (out : String) (wire : List String) (propStep : Bool) (ref : Option (Nat × Str) := none) : HAcc :=
-  { a with outs := a.outs ++ [out], wires := a.wires ++ [if wire.isEmpty then "-" else "+".intercalate wire],
+def wireStr (wire : List String) : String := if wire.isEmpty then "-" else "+".intercalate wire
+
+def HAcc.pushRaw (a : HAcc) (out : String) (wire : String) (propStep : Bool) (ref : Option (Nat × Str) := none) : HAcc :=
+  { a with outs := a.outs ++ [out], wires := a.wires ++ [wire],
            byStep := a.byStep ++ [ref],
            -- `!…`: the heartbeat clock of a session moved in a step that was not a Ping of it
            -- (`C15.lastPing_only_through_gate`); the model never says so
            prop := a.prop && (!a.judge || (propStep && !(a.obsO.headD "?").contains '!')),
            judge := a.judge && out == a.obsO.headD "?",
            obsO := a.obsO.drop 1, obsW := a.obsW.drop 1 }
+
+def HAcc.push (a : HAcc) (out : String) (wire : List String) (propStep : Bool) (ref : Option (Nat × Str) := none) : HAcc :=
+  a.pushRaw out (wireStr wire) propStep ref
+
+/-- the proxy a user connection is for: the one registered by step `k`, or (`none`) the one registered last among
+    those whose session the peer still holds -/
+def HAcc.proxyOf (a : HAcc) (srv : PluginSite.Srv) : Option Nat → Option (Nat × Str)
+  | some k => (a.byStep[k]?).join
+  | none =>
+    (a.byStep.reverse.find? (fun r => match r with
+      | some (slot, _) => ((a.slots[slot]?).map (·.usable)).getD false && (srv.bySlot slot).isSome
+      | none => false)).join
 
 def histIsPanic (e : PluginSite.Ev Content) : Bool :=
   match e.res with
@@ -455,12 +540,245 @@ def HAcc.expire (a : HAcc) (i : Nat) (gone : Bool) : Option (PluginSite.Srv × B
 def parseGone (o : String) : List Nat :=
   if o.startsWith "g" then ((o.drop 1).toString.splitOn "+").filterMap (·.toNat?) else []
 
+/-- what one occurrence of a gated operation comes to: the result and the wire the model expects, the property
+    predicate on the implementation's own observation (`o`, `w`), the server state afterwards -/
+structure StepRes where
+  out : String
+  wire : List String
+  prop : Bool
+  srv : PluginSite.Srv
+  ref : Option (Nat × Str) := none
+  panics : Bool := false
+
+def StepRes.panic (s : PluginSite.Srv) : StepRes := { out := "", wire := [], prop := true, srv := s, panics := true }
+
+/-- a NewProxy on the live session of slot `i` under the manager `m` (registration apart from the name: taken over) -/
+def judgeN (m : Manager Content) (srv : PluginSite.Srv) (i : Nat) (name : Str) (o w : String) : StepRes :=
+  let r := PluginSite.step PluginSite.encContent m srv (.newProxy i name (o != "no"))
+  match r.2 with
+  | [] => { out := "closed", wire := [], prop := true, srv := srv }   -- that session was replaced: the server hung up
+  | e :: _ =>
+    if histIsPanic e then .panic srv else
+    let regName : Str := match e.res with
+      | .ok c => PluginSite.encContent.proxyName c
+      | _ => []
+    let out := if e.proceeded then "ok:" ++ hx regName else "no"
+    -- a NewProxyResp without error: the name answered is the one of the content as rewritten
+    let nameOk := !(o.startsWith "ok:") || (e.res.isOk && o == "ok:" ++ hx regName)
+    { out := out, wire := evWire e "NewProxy" false,
+      prop := evHolds e "NewProxy" false w (o.startsWith "ok:") && nameOk,
+      srv := r.1, ref := if e.proceeded then some (i, regName) else none }
+
+/-- a Ping carrying `cred` on the live session of slot `i`: the chain first, then VerifyPing on the credentials of
+    the content the chain returned (`PluginSite.stepReq`, `C15.ping_acts_on_rewritten`) -/
+def judgeP (A : PluginSite.Auth) (m : Manager Content) (srv : PluginSite.Srv) (i : Nat) (cred : Str) (o w : String) : StepRes :=
+  let r := PluginSite.stepReq PluginSite.encContent A m srv (.ping i cred)
+  match r.2 with
+  | [] => { out := "closed", wire := [], prop := true, srv := srv }
+  | e :: _ =>
+    if histIsPanic e then .panic srv else
+    -- `+`: the heartbeat was counted (`lastPing.Store`: the model does it exactly when it proceeds)
+    let out := if e.proceeded then "ok+" else "no="
+    let prop := match parseStepWire "Ping" w with
+      | some cons => C15.pingHoldsOn id e.chain e.offered (o.startsWith "ok") (o.endsWith "+") cons
+      | none => false
+    -- the Pong follows the credentials AS REWRITTEN: a consenting chain whose output the verifier accepts must be
+    -- answered without error, one whose output it does not accept with an error
+    { out := out, wire := evWire e "Ping" false, prop := prop && (!e.res.isOk || o == out), srv := r.1 }
+
+/-- a user connection for proxy `name` of the session on `slot`, and — once it was let through — the work connection
+    carrying `cred`: the NewWorkConn chain first, then VerifyNewWorkConn on the credentials as the chain returned
+    them (`C15.workconn_acts_on_rewritten`) -/
+def judgeC (A : PluginSite.Auth) (m : Manager Content) (srv : PluginSite.Srv) (name : Str) (rid cred : Str) (o w : String) : StepRes :=
+  let rU := PluginSite.step PluginSite.encContent m srv (.newUserConn name)
+  match rU.2 with
+  | [] => { out := "-", wire := [], prop := true, srv := srv }
+  | eU :: _ =>
+    if histIsPanic eU then .panic srv else
+    let obsU := o.startsWith "ok/"
+    let pU := evHolds eU "NewUserConn" true w obsU
+    if !eU.proceeded then { out := "no/-", wire := evWire eU "NewUserConn" true, prop := pU, srv := srv } else
+    let rW := PluginSite.stepReq PluginSite.encContent A m srv (.newWorkConn rid cred)
+    match rW.2 with
+    | [] => { out := "ok/eof", wire := evWire eU "NewUserConn" true, prop := pU, srv := srv }
+    | eW :: _ =>
+      if histIsPanic eW then .panic srv else
+      let out := if eW.proceeded then "ok/ok" else "ok/no"
+      { out := out, wire := evWire eU "NewUserConn" true ++ evWire eW "NewWorkConn" false,
+        -- the work connection is started / refused as the REWRITTEN credentials deserve
+        prop := pU && evHolds eW "NewWorkConn" false w (o == "ok/ok") &&
+          ((o != "ok/ok" && o != "ok/no") || !eW.res.isOk || o == out),
+        srv := srv }
+
+/-! #### `J`: occurrences in flight together
+
+  The plugin server holds every answer back until the script releases it.  Per occurrence the model keeps the plugins
+  that have answered it so far, each AS IT ANSWERED THEN (behaviours may flip between two releases); the occurrence
+  is through its chain as soon as one of them refuses or all have answered (`PluginSite.Flight`,
+  `C15.flight_runs_gated`, `C15.concurrent_occurrences_gated`: what else is in flight changes nothing).  A finished
+  occurrence is judged exactly like a lone one (`judgeC` / `judgeP` / `judgeN`), on the requests the plugin server
+  received ABOUT IT (attributed by the harness through the occurrence's own content) and on its own outcome. -/
+
+structure JFl where
+  item : JItem
+  o : String                                  -- the implementation's result for this item
+  w : String                                  -- the requests the plugin server received about it
+  slot : Nat := 0
+  name : Str := []                            -- c: the proxy; n: the name asked for
+  rid : Str := []
+  user : Str := []
+  phase : Nat := 0                            -- c: 0 = NewUserConn chain, 1 = NewWorkConn chain
+  taken0 : List (Plugin Content) := []        -- the plugins that answered it (phase 0), as they answered
+  taken1 : List (Plugin Content) := []
+  done : Bool := false
+  res : Option StepRes := none                -- once done
+
+def JFl.op (f : JFl) : Op :=
+  match f.item with
+  | .c _ _ => if f.phase = 0 then .newUserConn else .newWorkConn
+  | .p _ _ => .ping
+  | .n _ _ => .newProxy
+
+def JFl.offered (f : JFl) : Content :=
+  match f.item with
+  | .c _ cred => if f.phase = 0 then PluginSite.encContent.newUserConn f.name f.user
+                 else PluginSite.encContent.newWorkConn cred f.user
+  | .p _ cred => PluginSite.encContent.ping cred f.user
+  | .n _ name => PluginSite.encContent.newProxy name f.user
+
+def setList (m : Manager Content) (op : Op) (l : List (Plugin Content)) : Manager Content :=
+  match op with
+  | .login => { m with loginPlugins := l }
+  | .newProxy => { m with newProxyPlugins := l }
+  | .closeProxy => { m with closeProxyPlugins := l }
+  | .ping => { m with pingPlugins := l }
+  | .newWorkConn => { m with newWorkConnPlugins := l }
+  | .newUserConn => { m with newUserConnPlugins := l }
+
+/-- the chain of `op` as this occurrence met it: the plugins that answered it as they answered, the others (never
+    asked: behind a refusal) as they are now -/
+def effList (m : Manager Content) (op : Op) (taken : List (Plugin Content)) : List (Plugin Content) :=
+  taken ++ (m.list op).drop taken.length
+
+structure JAcc where
+  srv : PluginSite.Srv
+  mgr : Manager Content
+  fls : List JFl
+  panics : Bool := false
+
+/-- the occurrence is through (all its chains): judge it like a lone one under the chains as it met them -/
+def JAcc.finish (A : PluginSite.Auth) (a : JAcc) (j : Nat) (f : JFl) : JAcc :=
+  let mE := setList (setList a.mgr .newUserConn (effList a.mgr .newUserConn f.taken0)) .newWorkConn
+    (effList a.mgr .newWorkConn f.taken1)
+  let r : StepRes := match f.item with
+    | .c _ cred => judgeC A mE a.srv f.name f.rid cred f.o f.w
+    | .p i cred => judgeP A (setList a.mgr .ping (effList a.mgr .ping f.taken0)) a.srv i cred f.o f.w
+    | .n i name => judgeN (setList a.mgr .newProxy (effList a.mgr .newProxy f.taken0)) a.srv i name f.o f.w
+  { a with srv := r.srv, panics := a.panics || r.panics,
+           fls := a.fls.set j { f with done := true, res := some r } }
+
+/-- after a plugin answered (or at launch): is the occurrence through its current chain? -/
+def JAcc.progress (A : PluginSite.Auth) (a : JAcc) (j : Nat) (f : JFl) (fuel : Nat) : JAcc :=
+  match fuel with
+  | 0 => a
+  | fuel + 1 =>
+    let taken := if f.phase = 0 then f.taken0 else f.taken1
+    let r := gated f.op taken f.offered
+    let all := taken.length ≥ (a.mgr.list f.op).length
+    match r.1 with
+    | .panic => { a with panics := true }
+    | .error _ => a.finish A j f
+    | .ok _ =>
+      if !all then { a with fls := a.fls.set j f } else
+      match f.item with
+      | .c _ _ =>
+        if f.phase = 0 then JAcc.progress A a j { f with phase := 1 } fuel     -- let through: the work connection is offered
+        else a.finish A j f
+      | _ => a.finish A j f
+
+/-- the plugin holding a request of item `j` answers, with its behaviour of this moment -/
+def JAcc.release (A : PluginSite.Auth) (a : JAcc) (j : Nat) : JAcc :=
+  match a.fls[j]? with
+  | none => a
+  | some f =>
+    if f.done then a else
+    let taken := if f.phase = 0 then f.taken0 else f.taken1
+    match (a.mgr.list f.op)[taken.length]? with
+    | none => a
+    | some p =>
+      let f := if f.phase = 0 then { f with taken0 := f.taken0 ++ [p] } else { f with taken1 := f.taken1 ++ [p] }
+      a.progress A j f 3
+
+def jDecided (it : JItem) (o w : String) (out : String) (srv : PluginSite.Srv) : JFl :=
+  { item := it, o := o, w := w, done := true, res := some { out := out, wire := [], prop := true, srv := srv } }
+
+/-- the occurrence is launched: what is decided before any plugin is asked (no such proxy / session, visitor not
+    admitted, a second message for a session's dispatcher), else it enters its chain -/
+def JAcc.launch (A : PluginSite.Auth) (h : HAcc) (a : JAcc) (it : JItem) (o w : String) : JAcc :=
+  let j := a.fls.length
+  let dec (out : String) : JAcc := { a with fls := a.fls ++ [jDecided it o w out a.srv] }
+  match it with
+  | .c k _ =>
+    match h.proxyOf a.srv k with
+    | none => dec "-"
+    | some (slot, name) =>
+      match h.slots[slot]?, a.srv.bySlot slot with
+      | some sl, some ctl =>
+        if !sl.usable || o == "-" then dec "-" else
+        let f : JFl := { item := it, o := o, w := w, slot := slot, name := name, rid := ctl.rid, user := ctl.user }
+        -- no such listener any more (cannot happen while the session lives): as the sequential step
+        if (a.srv.owner name).isNone then dec "-" else
+        ({ a with fls := a.fls ++ [f] }).progress A j f 3
+      | _, _ => dec "-"
+  | .p i _ | .n i _ =>
+    match h.slots[i]? with
+    | none => dec "dead"
+    | some sl =>
+      if !sl.usable then dec "dead" else
+      if a.fls.any (fun g => match g.item with
+          | .p i' _ => i' == i
+          | .n i' _ => i' == i
+          | _ => false) then dec "dup" else
+      match a.srv.bySlot i with
+      | none => dec "closed"                         -- that session was replaced: the server hung up
+      | some ctl =>
+        let f : JFl := { item := it, o := o, w := w, slot := i, rid := ctl.rid, user := ctl.user }
+        ({ a with fls := a.fls ++ [f] }).progress A j f 3
+
+def JAcc.act (A : PluginSite.Auth) (a : JAcc) : JAct → JAcc
+  | .r j => a.release A j
+  | .f id b => { a with mgr := flipMgr a.mgr id b }
+
+/-- at the end of the script: whatever is still held is released, item by item -/
+def JAcc.drain (A : PluginSite.Auth) (a : JAcc) : JAcc :=
+  (List.range a.fls.length).foldl (fun a j =>
+    (List.range 20).foldl (fun a _ => a.release A j) a) a
+
+def histJ (a : HAcc) (items : List JItem) (acts : List JAct) (o w : String) : HAcc :=
+  let os := o.splitOn "&"
+  let ws := w.splitOn "&"
+  let ja : JAcc := { srv := a.srv, mgr := a.mgr, fls := [] }
+  let ja := (items.zipIdx).foldl (fun ja (it, i) => ja.launch a.auth a it (os.getD i "?") (ws.getD i "-")) ja
+  let ja := acts.foldl (JAcc.act a.auth) ja
+  let ja := ja.drain a.auth
+  if ja.panics then { a with panics := true } else
+  let rs := ja.fls.map (fun f => f.res.getD { out := "?", wire := [], prop := false, srv := ja.srv })
+  -- every request the plugin server received in this step belongs to one of the occurrences (no `?` segment), each
+  -- occurrence has a result of its own
+  let shape := os.length == items.length && ws.length == items.length
+  { a.pushRaw ("&".intercalate (rs.map (·.out))) ("&".intercalate (rs.map (fun r => wireStr r.wire)))
+      (shape && rs.all (·.prop)) with srv := ja.srv, mgr := ja.mgr }
+
 def histStep (a : HAcc) (t : HistTok) : HAcc :=
   let o := ((a.obsO.headD "?").splitOn "!").headD "?"
   let w := a.obsW.headD "-"
+  let take (a : HAcc) (r : StepRes) : HAcc :=
+    if r.panics then { a with panics := true } else { a.push r.out r.wire r.prop r.ref with srv := r.srv }
   match t with
   | .Z sec => { a.push "-" [] true with srv := { a.srv with hb := sec * 10 } }
-  | .A => a.push "-" [] true
+  | .A h w valid =>
+    { a.push "-" [] true with auth := { ping := if h then some valid else none, work := if w then some valid else none } }
+  | .J items acts => histJ a items acts o w
   | .W d =>
     let srv := (PluginSite.step PluginSite.encContent a.mgr a.srv (.tick d)).1
     let obsGone := parseGone o
@@ -511,20 +829,7 @@ def histStep (a : HAcc) (t : HistTok) : HAcc :=
         -- the message may have been on its way through the chain when the server hung up: whatever
         -- the plugin server still received of it is taken over
         { a.push "closed" (if w == "-" then [] else [w]) p with srv := srv' }
-      | none =>
-      let r := PluginSite.step PluginSite.encContent a.mgr a.srv (.newProxy i name (o != "no"))
-      match r.2 with
-      | [] => a.push "closed" [] true                      -- that session was replaced: the server hung up
-      | e :: _ =>
-        if histIsPanic e then { a with panics := true } else
-        let regName : Str := match e.res with
-          | .ok c => PluginSite.encContent.proxyName c
-          | _ => []
-        let out := if e.proceeded then "ok:" ++ hx regName else "no"
-        -- a NewProxyResp without error: the name answered is the one of the content as rewritten
-        let nameOk := !(o.startsWith "ok:") || (e.res.isOk && o == "ok:" ++ hx regName)
-        { a.push out (evWire e "NewProxy" false) (evHolds e "NewProxy" false w (o.startsWith "ok:") && nameOk)
-            (if e.proceeded then some (i, regName) else none) with srv := r.1 }
+      | none => take a (judgeN a.mgr a.srv i name o w)
     | none => a.push "dead" [] true
   | .P i key =>
     match a.slots[i]? with
@@ -535,22 +840,10 @@ def histStep (a : HAcc) (t : HistTok) : HAcc :=
         -- the message may have been on its way through the chain when the server hung up: whatever
         -- the plugin server still received of it is taken over
         { a.push "closed" (if w == "-" then [] else [w]) p with srv := srv' }
-      | none =>
-      -- VerifyPing (after the chain) is taken over: a Pong with an error after a consenting chain
-      let r := PluginSite.step PluginSite.encContent a.mgr a.srv (.ping i key (!o.startsWith "no"))
-      match r.2 with
-      | [] => a.push "closed" [] true
-      | e :: _ =>
-        if histIsPanic e then { a with panics := true } else
-        -- `+`: the heartbeat was counted (`lastPing.Store`: the model does it exactly when it proceeds)
-        let out := if e.proceeded then "ok+" else "no="
-        let prop := match parseStepWire "Ping" w with
-          | some cons => C15.pingHoldsOn id e.chain e.offered (o.startsWith "ok") (o.endsWith "+") cons
-          | none => false
-        { a.push out (evWire e "Ping" false) prop with srv := r.1 }
+      | none => take a (judgeP a.auth a.mgr a.srv i key o w)
     | none => a.push "dead" [] true
-  | .C k =>
-    match (a.byStep[k]?).join with
+  | .C k cred =>
+    match a.proxyOf a.srv k with
     | none => a.push "-" [] true
     | some (slot, name) =>
       match a.slots[slot]?, a.srv.bySlot slot with
@@ -559,22 +852,7 @@ def histStep (a : HAcc) (t : HistTok) : HAcc :=
         -- the visitor was not admitted (e.g. the plugins rewrote the proxy into one of another type):
         -- no user connection reached the proxy; taken over from the implementation
         if o == "-" then a.push "-" [] true else
-        let rU := PluginSite.step PluginSite.encContent a.mgr a.srv (.newUserConn name)
-        match rU.2 with
-        | [] => a.push "-" [] true
-        | eU :: _ =>
-          if histIsPanic eU then { a with panics := true } else
-          let obsU := o.startsWith "ok/"
-          let pU := evHolds eU "NewUserConn" true w obsU
-          if !eU.proceeded then a.push "no/-" (evWire eU "NewUserConn" true) pU else
-          let rW := PluginSite.step PluginSite.encContent a.mgr a.srv (.newWorkConn ctl.rid)
-          match rW.2 with
-          | [] => a.push "ok/eof" (evWire eU "NewUserConn" true) pU
-          | eW :: _ =>
-            if histIsPanic eW then { a with panics := true } else
-            a.push (if eW.proceeded then "ok/ok" else "ok/no")
-              (evWire eU "NewUserConn" true ++ evWire eW "NewWorkConn" false)
-              (pU && evHolds eW "NewWorkConn" false w (o == "ok/ok"))
+        take a (judgeC a.auth a.mgr a.srv name ctl.rid cred o w)
       | _, _ => a.push "-" [] true                        -- the session of that proxy is gone
 
 /-- (expected result line, property predicate on the implementation's own results) -/
